@@ -53,6 +53,11 @@ type clHooks struct {
 	// return a closure that is called with the result afterwards.
 	beforeSwap func(w *clWorld, zeroForOne, exactIn bool, amount sdkmath.Int) func(rec clSwapRec)
 	afterOp    func(w *clWorld, op string) bool // false = stop the history (violation recorded)
+	// aroundPosOp is called before a claim / add / withdraw / transfer on position p; the returned closure is
+	// called after a successful message with the id the position has afterwards (0 = it no longer exists).
+	aroundPosOp func(w *clWorld, p *clPos, op string) func(res chain.ExecResult, idAfter uint64)
+	// protected positions (fairness probes) are not touched by the random operations
+	protect func(p *clPos) bool
 }
 
 type clWorld struct {
@@ -80,6 +85,10 @@ type clWorld struct {
 	recoveredPanic int
 	nSteps         int
 	incentDenoms   []string
+	lastTick       int64
+	haveLastTick   bool
+	minIncentUptime time.Duration // smallest uptime of any incentive record created so far (0 = none yet)
+	claimsByPos    map[uint64]sdk.Coins
 }
 
 func (w *clWorld) pool() cltypes.ConcentratedPoolExtension {
@@ -393,17 +402,31 @@ func (w *clWorld) swap(trader int, zeroForOne, exactIn bool, amount sdkmath.Int,
 	return rec
 }
 
-// trackInRange marks positions whose range contains the current tick.
+// trackInRange marks positions whose range contains the current tick or was swept by the price since
+// the last call (a swap can pass through a whole range).
 func (w *clWorld) trackInRange() {
 	if len(w.pos) == 0 {
+		w.haveLastTick = false
 		return
 	}
 	t := w.pool().GetCurrentTick()
+	lo, hi := t, t
+	if w.haveLastTick {
+		if w.lastTick < lo {
+			lo = w.lastTick
+		}
+		if w.lastTick > hi {
+			hi = w.lastTick
+		}
+	}
 	for _, p := range w.pos {
-		if p.lower <= t && t < p.upper {
+		// range [p.lower, p.upper) intersects the swept tick interval [lo-1, hi+1] (one tick of margin for the
+		// tick = t-1 convention after a downward crossing)
+		if p.lower <= hi+1 && lo-1 < p.upper {
 			p.everIn = true
 		}
 	}
+	w.lastTick, w.haveLastTick = t, true
 }
 
 // swapAmount draws a swap size class.
@@ -508,19 +531,54 @@ func ratFloorI(x *big.Rat) *big.Int {
 // step performs one seed-chosen operation; returns the op name ("" = nothing done).
 func (w *clWorld) step(mix string) string {
 	r := w.r
-	k := r.Intn(100)
-	swapShare := 40
-	if mix == "swap-heavy" {
-		swapShare = 62
+	// operation weights per mix: swap, create, add, withdraw, collect-spread, collect-incentives, incentive, transfer, time
+	weights := map[string][9]int{
+		"mixed":      {40, 14, 6, 10, 6, 5, 4, 3, 12},
+		"swap-heavy": {55, 10, 5, 7, 4, 3, 3, 2, 11},
+		"rewards":    {38, 8, 5, 7, 5, 7, 10, 3, 17},
+	}
+	wt, okMix := weights[mix]
+	if !okMix {
+		wt = weights["mixed"]
+	}
+	total := 0
+	for _, x := range wt {
+		total += x
+	}
+	pickOp := r.Intn(total)
+	opIdx := 0
+	for acc := 0; opIdx < len(wt); opIdx++ {
+		acc += wt[opIdx]
+		if pickOp < acc {
+			break
+		}
 	}
 	ps := w.sortedPos()
+	if w.hooks.protect != nil {
+		var free []*clPos
+		for _, p := range ps {
+			if !w.hooks.protect(p) {
+				free = append(free, p)
+			}
+		}
+		ps = free
+	}
+	around := func(p *clPos, op string) func(chain.ExecResult, uint64) {
+		if w.hooks.aroundPosOp == nil {
+			return func(chain.ExecResult, uint64) {}
+		}
+		if f := w.hooks.aroundPosOp(w, p, op); f != nil {
+			return f
+		}
+		return func(chain.ExecResult, uint64) {}
+	}
 	switch {
-	case k < swapShare:
+	case opIdx == 0:
 		zfo, exactIn := r.Bool(), r.Bool()
 		amt, kind := w.swapAmount(zfo, exactIn)
 		w.swap(r.Intn(len(w.traders)), zfo, exactIn, amt, kind)
 		return "swap"
-	case k < swapShare+14:
+	case opIdx == 1:
 		lo, hi, kind := w.pickRange()
 		a0, a1 := w.amount(0, 24), w.amount(0, 24)
 		switch r.Intn(6) {
@@ -537,10 +595,11 @@ func (w *clWorld) step(mix string) string {
 		w.createPosition(r.Intn(len(w.lps)), lo, hi, a0, a1, kind)
 		w.trackInRange()
 		return "create"
-	case k < swapShare+20 && len(ps) > 0:
+	case opIdx == 2 && len(ps) > 0:
 		p := ps[r.Intn(len(ps))]
 		a0, a1 := w.amount(0, 20), w.amount(0, 20)
 		w.c.Logf("AddToPosition(%d, +%s/+%s)", p.id, a0, a1)
+		aft := around(p, "add")
 		res := w.ch.Exec(&cltypes.MsgAddToPosition{PositionId: p.id, Sender: w.lps[p.owner].Addr.String(), Amount0: a0, Amount1: a1, TokenMinAmount0: sdkmath.ZeroInt(), TokenMinAmount1: sdkmath.ZeroInt()})
 		if res.OK() {
 			var rsp cltypes.MsgAddToPositionResponse
@@ -554,11 +613,12 @@ func (w *clWorld) step(mix string) string {
 			w.pos[np.PositionId] = &clPos{id: np.PositionId, owner: p.owner, lower: np.LowerTick, upper: np.UpperTick, liq: np.Liquidity, join: w.ch.Ctx.BlockTime(), tag: p.tag, everIn: p.everIn}
 			w.c.Logf("  -> new position %d liq=%s", np.PositionId, np.Liquidity)
 			w.trackInRange()
+			aft(res, np.PositionId)
 		} else {
 			w.c.Logf("  rejected: %s", trunc(res.ErrString(), 160))
 		}
 		return "add"
-	case k < swapShare+30 && len(ps) > 0:
+	case opIdx == 3 && len(ps) > 0:
 		p := ps[r.Intn(len(ps))]
 		liq := p.liq
 		full := r.Intn(3) == 0
@@ -572,39 +632,46 @@ func (w *clWorld) step(mix string) string {
 			}
 		}
 		w.c.Logf("WithdrawPosition(%d, %s of %s)", p.id, liq, p.liq)
+		aft := around(p, "withdraw")
 		res := w.ch.Exec(&cltypes.MsgWithdrawPosition{PositionId: p.id, Sender: w.lps[p.owner].Addr.String(), LiquidityAmount: liq})
 		if res.OK() {
 			w.collectOnWithdraw(res)
 			if full || liq.Equal(p.liq) {
 				delete(w.pos, p.id)
+				aft(res, 0)
 			} else {
 				p.liq = p.liq.Sub(liq)
+				aft(res, p.id)
 			}
 		} else {
 			w.c.Logf("  rejected: %s", trunc(res.ErrString(), 160))
 		}
 		return "withdraw"
-	case k < swapShare+36 && len(ps) > 0:
+	case opIdx == 4 && len(ps) > 0:
 		p := ps[r.Intn(len(ps))]
 		w.c.Logf("CollectSpreadRewards(%d)", p.id)
+		aft := around(p, "collect-spread")
 		res := w.ch.Exec(&cltypes.MsgCollectSpreadRewards{PositionIds: []uint64{p.id}, Sender: w.lps[p.owner].Addr.String()})
 		if res.OK() {
 			var rsp cltypes.MsgCollectSpreadRewardsResponse
 			unpackResp(res, "MsgCollectSpreadRewardsResponse", &rsp)
 			w.spreadClaimed = w.spreadClaimed.Add(rsp.CollectedSpreadRewards...)
+			aft(res, p.id)
 		}
 		return "collect-spread"
-	case k < swapShare+41 && len(ps) > 0:
+	case opIdx == 5 && len(ps) > 0:
 		p := ps[r.Intn(len(ps))]
 		w.c.Logf("CollectIncentives(%d)", p.id)
+		aft := around(p, "collect-incentives")
 		res := w.ch.Exec(&cltypes.MsgCollectIncentives{PositionIds: []uint64{p.id}, Sender: w.lps[p.owner].Addr.String()})
 		if res.OK() {
 			var rsp cltypes.MsgCollectIncentivesResponse
 			unpackResp(res, "MsgCollectIncentivesResponse", &rsp)
 			w.incentClaimed = w.incentClaimed.Add(rsp.CollectedIncentives...)
+			aft(res, p.id)
 		}
 		return "collect-incentives"
-	case k < swapShare+45:
+	case opIdx == 6:
 		// incentive record through the exported keeper entry point
 		d := w.incentDenoms[r.Intn(len(w.incentDenoms))]
 		amt := w.amount(3, 22)
@@ -621,17 +688,22 @@ func (w *clWorld) step(mix string) string {
 		if err == nil {
 			write()
 			w.incentFunded = w.incentFunded.Add(sdk.NewCoin(d, amt))
+			if w.minIncentUptime == 0 || up < w.minIncentUptime {
+				w.minIncentUptime = up
+			}
 		} else {
 			w.c.Logf("  rejected: %s", trunc(err.Error(), 160))
 		}
 		return "incentive"
-	case k < swapShare+48 && len(ps) > 1:
+	case opIdx == 7 && len(ps) > 1:
 		p := ps[r.Intn(len(ps))]
 		to := (p.owner + 1 + r.Intn(len(w.lps)-1)) % len(w.lps)
 		w.c.Logf("TransferPositions(%d: owner %d -> %d)", p.id, p.owner, to)
+		aft := around(p, "transfer")
 		res := w.ch.Exec(&cltypes.MsgTransferPositions{PositionIds: []uint64{p.id}, Sender: w.lps[p.owner].Addr.String(), NewOwner: w.lps[to].Addr.String()})
 		if res.OK() {
 			p.owner = to
+			aft(res, p.id)
 		} else {
 			w.c.Logf("  rejected: %s", trunc(res.ErrString(), 160))
 		}
@@ -668,15 +740,7 @@ func (w *clWorld) collectOnWithdraw(res chain.ExecResult) {
 		if ev.Type != "transfer" {
 			continue
 		}
-		var from, amt string
-		for _, a := range ev.Attributes {
-			switch a.Key {
-			case "sender":
-				from = a.Value
-			case "amount":
-				amt = a.Value
-			}
-		}
+		from, amt := ev.Attr("sender"), ev.Attr("amount")
 		if from != spr && from != inc {
 			continue
 		}
